@@ -36,8 +36,24 @@ class HLLSys(E1):
         self.p, self.seed = cfg["p"], cfg["seed"]
         self.keys = [bytes(k) for k in cfg["keys"]]
         self.expect = {}
-        work = [SK.make("hll", self.p, self.seed) for _ in range(cfg["S"])]
+        if cfg.get("shared"):
+            from ..common import quiet_shm
+
+            quiet_shm()
+        work = [SK.make("hll", self.p, self.seed, shared_memory=bool(cfg.get("shared")))
+                for _ in range(cfg["S"])]
         return work, tuple(() for _ in range(cfg["S"]))
+
+    def heal(self, work, caps):
+        if not self.cfg.get("shared"):
+            return
+        from ..bfs import in_block, restore
+
+        for i, sk in enumerate(work):
+            if not in_block(sk.registers, sk.shm):
+                # left behind by an earlier transition (reported there): start from a sound object
+                work[i] = SK.make("hll", self.p, self.seed, shared_memory=True)
+                restore(work[i], caps[i], self.skip)
 
     def events(self, model, depth):
         c = self.cfg
@@ -55,6 +71,10 @@ class HLLSys(E1):
             for x, g in c.get("ngrams", ()):
                 yield ("ngram", s, bytes(x), g)
             yield ("updit", s, (K[0], K[n - 1]))
+            # update_ngram over a list holding a record longer than n, a shorter one and the
+            # EMPTY record (added whole, like every record not longer than n)
+            for x, g in c.get("ngrams", ())[:1]:
+                yield ("updng", s, (bytes(x), K[1], b""), g)
         for s in range(S):
             for t in range(S):
                 yield ("merge", s, t)
@@ -87,6 +107,11 @@ class HLLSys(E1):
         elif op == "ngram":
             work[ev[1]].add_ngram(ev[2], ev[3])
             m[ev[1]].update(windows(ev[2], ev[3]))
+        elif op == "updng":
+            docs = [bytes(x) for x in ev[2]]
+            work[ev[1]].update_ngram(docs, ev[3])
+            for x in docs:
+                m[ev[1]].update(windows(x, ev[3]))
         elif op == "merge":
             s, t = ev[1], ev[2]
             before = work[t].registers.tobytes()
@@ -96,7 +121,14 @@ class HLLSys(E1):
             m[s] |= m[t]
         elif op == "mergecopy":
             s = ev[1]
-            work[s].merge(copy.deepcopy(work[s]))
+            if self.cfg.get("shared"):
+                # a second handle attached to the sketch's own block is merged into it
+                view = SK.make("hll", self.p, self.seed)
+                view.attach_existing_shm(work[s].shm.name)
+                work[s].merge(view)
+                del view
+            else:
+                work[s].merge(copy.deepcopy(work[s]))
         else:
             raise MachineryError(f"unknown event {ev}")
         return tuple(tuple(sorted(x)) for x in m), probs
@@ -123,6 +155,15 @@ class HLLSys(E1):
         for s, sk in self.active(work):
             regs, fresh_regs, fresh_q = self.expected(model[s])
             got = sk.registers.tobytes()
+            if self.cfg.get("shared"):
+                # the state of a shared-memory sketch is its block: read it through a second handle
+                view = SK.make("hll", self.p, self.seed)
+                view.attach_existing_shm(sk.shm.name)
+                vg = view.registers.tobytes()
+                del view
+                if vg != got:
+                    probs.append(f"sketch {s}: a second handle attached to the shared block reads "
+                                 f"other registers than the object itself")
             if got != regs:
                 a = np.frombuffer(got, np.uint8)
                 b = np.frombuffer(regs, np.uint8)
@@ -158,8 +199,8 @@ class HLLSys(E1):
 
 def alphabet(p, seed, nkeys, salt):
     m = 1 << p
-    i0 = (0x5BD1E995 * (salt + 1)) % m
-    i1 = (i0 + 1 + salt) % m
+    i0 = (0x5BD1E995 * (salt + 1)) % (m - 1)
+    i1 = m - 1  # the LAST register (an off-by-one over the register range shows here)
     # one register with ranks r, r+1, r+1 (adjacent and equal), another holding
     # the maximum rank, a third with a rank two below a mid value, the empty key
     keys = [
@@ -187,6 +228,11 @@ def configs(tier, seed):
             keys = alphabet(p, sd, nk if p <= 12 else 5, salt)
             ng = [[keys[1] + keys[2], 8], [keys[3], 9]]
             out.append(dict(p=p, seed=sd, S=S, keys=keys, ngrams=ng, depth=14))
+    # sketches living in shared memory, registers read through a second attached handle
+    for p, sd in (((7, 0),) if tier == "quick" else ((7, 0), (10, 2**63 + 1), (16, 2**64 - 1))):
+        keys = alphabet(p, sd, 4, salt)
+        out.append(dict(p=p, seed=sd, S=2, keys=keys, ngrams=[[keys[1] + keys[2], 8]], depth=14,
+                        shared=True))
     if tier == "thorough":
         for p, sd in ((7, 0), (9, 2**64 - 1), (11, 2**63 + 1)):
             keys = alphabet(p, sd, 7, salt)[1:]
@@ -208,7 +254,7 @@ class HLLSys3(HLLSys):
 
 
 def pool_size(tier):
-    return 9 if tier == "quick" else 16
+    return 10 if tier == "quick" else 16
 
 
 def task(arg):
